@@ -55,6 +55,7 @@ MUTANTS = [
     ("C18", "relevant_max_off_by_one", W, "self.relevant_max = (self.relevant_min + self.nbins_target) - 1", "self.relevant_max = (self.relevant_min + self.nbins_target)"),
     ("C18", "g_updated_before_move", W, "                oseq = Sequence(nseq.seq, nseq.dmax, nseq.chargePattern)\n                kold = oseq.kappa()\n                idx_old = np.argmin(abs(bincts - kold))\n\n                # reset the new sequence and new sequence histogram index\n                nseq = None\n                idx_new = 0\n\n            # if we do not accept the move\n            else:\n                nseq = None\n                idx_new = 0\n            # END OF ACCEPTANCE REGION",
      "                oseq = Sequence(nseq.seq, nseq.dmax, nseq.chargePattern)\n                kold = oseq.kappa()\n                idx_keep = idx_old\n                idx_old = np.argmin(abs(bincts - kold))\n                if nstep % 17 == 16: idx_old = idx_keep\n\n                # reset the new sequence and new sequence histogram index\n                nseq = None\n                idx_new = 0\n\n            # if we do not accept the move\n            else:\n                nseq = None\n                idx_new = 0\n            # END OF ACCEPTANCE REGION"),
+    ("C18", "continues_when_f_equals_threshold", W, "        while(f > self.convergence):\n\n            if nstep % self.dotdotfreq == 0:\n                running_dotdotdot()\n\n            # There are four possible", "        while(f >= self.convergence):\n\n            if nstep % self.dotdotfreq == 0:\n                running_dotdotdot()\n\n            # There are four possible"),
     ("C18", "dos_written_in_append_mode", W, '        dos = open(os.path.join(self.writeDir, "DOS.txt"), \'w\')', '        dos = open(os.path.join(self.writeDir, "DOS.txt"), \'a\')'),
     # ---- C20
     ("C20", "partial_commit_on_reject", S, "        valid = {}\n\n        # for each one letter amino acid code", "        valid = self.aminoAcidColorMap = getattr(self, 'aminoAcidColorMap', {})\n\n        # for each one letter amino acid code"),
